@@ -3,6 +3,8 @@ use crate::operator::{AggregateFunction, Data, EvalError, Evaluate, Expr};
 
 pub struct Min {
     min: f64,
+    /// the minimum of the integer values, kept exactly: not every i64 is a double
+    min_int: Option<i64>,
     column: Expr,
 }
 
@@ -10,6 +12,7 @@ impl Min {
     pub fn empty<T: Into<Expr>>(column: T) -> Min {
         Min {
             min: std::f64::INFINITY,
+            min_int: None,
             column: column.into(),
         }
     }
@@ -18,17 +21,43 @@ impl Min {
 impl AggregateFunction for Min {
     fn process(&mut self, data: &Data) -> Result<(), EvalError> {
         let value: f64 = self.column.eval(data)?;
-        if value < self.min {
-            self.min = value;
+        let exact = match self.column.eval_value(data)?.as_ref() {
+            data::Value::Int(i) => Some(*i),
+            data::Value::Str(s) => match data::Value::from_string(s.as_str()) {
+                data::Value::Int(i) => Some(i),
+                _ => None,
+            },
+            _ => None,
+        };
+        match exact {
+            Some(i) => {
+                if self.min_int.map_or(true, |seen| i < seen) {
+                    self.min_int = Some(i);
+                }
+            }
+            None => {
+                if value < self.min {
+                    self.min = value;
+                }
+            }
         }
         Ok(())
     }
 
     fn emit(&self) -> data::Value {
-        if self.min.is_finite() {
-            data::Value::from_float(self.min)
+        if self.min == std::f64::NEG_INFINITY {
+            // as before: an infinite minimum is not reported
+            return data::Value::None;
+        }
+        let of_floats = if self.min.is_finite() {
+            Some(data::Value::from_float(self.min))
         } else {
-            data::Value::None
+            None
+        };
+        match (self.min_int.map(data::Value::Int), of_floats) {
+            (Some(i), Some(f)) => i.min(f),
+            (Some(v), None) | (None, Some(v)) => v,
+            (None, None) => data::Value::None,
         }
     }
 
